@@ -169,6 +169,29 @@ def judge_wellformed(prop, case, outs, exp_outputs):
     return vs, docs
 
 
+def judge_wellformed_modelfree(prop, case, outs):
+    """C02 for histories whose outcome the model does not predict (argument values a library may accept or refuse): every closed
+    output is either empty or one schema-valid document with at least one block"""
+    vs, docs = [], {}
+    for o in outs:
+        if not o.exists:
+            continue        # a call that threw may not have switched outputs: which files must exist is not predicted here
+        if o.stream_error:
+            vs.append(Violation(prop, '%s:stream:%s' % (prop, o.comp), 'output %s: %s' % (o.id, o.stream_error), {'case': case, 'output': o.id}))
+            continue
+        if not o.data:
+            continue
+        try:
+            docs[o.id] = cdns_schema.parse(o.data)
+            if not docs[o.id].blocks:
+                vs.append(Violation(prop, '%s:data-in-blockless-output' % prop, 'output %s got %d uncompressed bytes although it holds no block' % (o.id, len(o.data)), {'case': case, 'output': o.id}))
+        except cbor.CborError as x:
+            vs.append(Violation(prop, '%s:malformed-cbor:%s' % (prop, x.msg.split(':')[0].split(' (')[0][:40]), 'output %s is not one well-formed CBOR item: %s' % (o.id, x), {'case': case, 'output': o.id, 'hex_head': o.data[:64].hex()}))
+        except cdns_schema.SchemaError as x:
+            vs.append(Violation(prop, '%s:schema:%s' % (prop, x.kind), 'output %s violates the RFC 8618 schema: %s' % (o.id, x), {'case': case, 'output': o.id}))
+    return vs, docs
+
+
 def _cmp_blocks(prop, oracle, case, oid, exp_blocks, got_blocks, vs):
     if len(exp_blocks) != len(got_blocks):
         vs.append(Violation(prop, '%s:%s:block-count' % (prop, oracle), 'output %s: expected %d blocks, %s sees %d' % (oid, len(exp_blocks), oracle, len(got_blocks)), {'case': case, 'output': oid}))
